@@ -15,20 +15,21 @@ CONSTANT Strict
 Traces == JsonDeserialize(IOEnv.TRACE_FILE)
 
 VARIABLES tid, l, obs
-tvars == <<vars, tid, l, obs>>
+tvars == <<allvars, tid, l, obs>>
 
 Tr == Traces[tid]
 Ev == Tr.events
 
-NoObs == [seen |-> FALSE, id |-> {}, att |-> {}, nid |-> 0, natt |-> 0, verifies |-> TRUE]
+NoObs == [seen |-> FALSE, id |-> {}, att |-> {}, nid |-> 0, natt |-> 0, verifies |-> TRUE,
+          tree |-> {}, creds |-> {}, atts |-> {}, ntree |-> 0, ncreds |-> 0, natts |-> 0]
 
 TraceInit == /\ tid \in 1..Len(Traces) /\ l = 1 /\ obs = NoObs
              /\ recs = [i \in 1..Len(Traces[tid].recs) |->
                           [kind |-> Traces[tid].recs[i].kind, ref |-> Traces[tid].recs[i].ref]]
              /\ InitDb(Range(Traces[tid].legacy))
-             /\ calls = 0 /\ pc = Down
+             /\ calls = 0 /\ pc = Down /\ pend = [d \in DBs |-> 0] /\ batches = 0
 
-Lib(a)      == a /\ UNCHANGED <<pc, calls, recs, legacy>>
+Lib(a)      == a /\ UNCHANGED <<pc, calls, recs, legacy, pend, batches>>
 Step(a, p)  == IF Strict THEN p ELSE Lib(a)
 Skip        == UNCHANGED vars
 
@@ -40,7 +41,8 @@ Event(e) ==
   \/ /\ e.a = "Start"       /\ Step(DbStart, PStart)
   \/ /\ e.a = "ReadVersion" /\ IF Strict THEN PReadVersion(e.d) ELSE up /\ Skip
   \/ /\ e.a = "Begin"       /\ Step(DbBegin(e.d), POpenBegin(e.d) \/ \E i \in Recs : DbOf(i) = e.d /\ PBegin(i))
-  \/ /\ e.a = "Commit"      /\ Step(DbCommit(e.d), POpenCommit(e.d) \/ \E i \in Recs : DbOf(i) = e.d /\ PCommit(i))
+  \/ /\ e.a = "Commit"      /\ Step(DbCommit(e.d), \/ POpenCommit(e.d) \/ (inTxn[e.d] /\ PLeaveCommit(e.d))
+                                                    \/ \E i \in Recs : DbOf(i) = e.d /\ pend[e.d] = 0 /\ PCommit(i))
   \/ /\ e.a = "Rollback"    /\ ~Strict /\ Lib(DbRollback(e.d))
   \/ /\ e.a = "CreateData"  /\ Step(DbCreateData(e.d), PCreateData(e.d) \/ (At(e.d, "copt") /\ T[e.d].data /\ Skip))
   \/ /\ e.a = "CreateOpt"   /\ Step(DbCreateOpt(e.d), PCreateOpt(e.d))
@@ -52,17 +54,22 @@ Event(e) ==
   \/ /\ e.a = "Call"        /\ e.r \in Recs /\ IF Strict THEN PCall(e.r) ELSE up /\ Skip
   \/ /\ e.a = "Exec"        /\ e.r \in Recs /\ Step(DbExecute(e.r), PExecute(e.r))
   \/ /\ e.a = "Return"      /\ e.r \in Recs /\ Step(DbReturn(e.r), PReturn(e.r))
+  \/ /\ e.a = "Enter"       /\ Step(DbEnter(e.d), PEnter(e.d))
+  \/ /\ e.a = "Leave"       /\ Step(DbLeave(e.d, e.how), PLeave(e.d, e.how))
+  \/ /\ e.a = "Deferred"    /\ IF Strict THEN \E i \in Recs : DbOf(i) = e.d /\ pend[e.d] > 0 /\ PCommit(i) ELSE up /\ Skip
   \/ /\ e.a = "Crash"       /\ Step(DbCrash, PCrash)
   \/ /\ e.a = "Exit"        /\ Step(DbExit, PExit)
   \/ /\ e.a = "OpenError"   /\ IF Strict THEN StrictOpenError ELSE Lib(DbOpenError)
 
 Observe(e) == /\ e.a = "Observe"
-              /\ IF Strict THEN PObserve ELSE up /\ Skip
+              /\ IF Strict THEN PObserve ELSE Lib(DbReload)
               /\ obs' = [seen |-> TRUE, id |-> Range(e.id), att |-> Range(e.att),
-                         nid |-> Len(e.id), natt |-> Len(e.att), verifies |-> e.verifies]
+                         nid |-> Len(e.id), natt |-> Len(e.att), verifies |-> e.verifies,
+                         tree |-> Range(e.tree), creds |-> Range(e.creds), atts |-> Range(e.atts),
+                         ntree |-> Len(e.tree), ncreds |-> Len(e.creds), natts |-> Len(e.atts)]
 
 TraceNext == /\ l <= Len(Ev)
-             /\ \/ Event(Ev[l]) /\ obs' = NoObs
+             /\ \/ Event(Ev[l]) /\ obs' = NoObs /\ rebuilt' = NoRebuilt
                 \/ Observe(Ev[l])
              /\ l' = l + 1 /\ UNCHANGED tid
 
@@ -84,4 +91,20 @@ ObsNoPartial      == obs.seen => /\ \A d \in DBs : \A x \in obs[d] :
                                  /\ obs.nid = Cardinality(ObsRows("id")) /\ obs.natt = Cardinality(ObsRows("att"))
 (* the pseudonym / wallet rebuilt from the files by the real reload path verifies *)
 ObsVerifies       == obs.seen => obs.verifies
+(* ----- the pseudonym the real reload path rebuilt (PseudonymManager.__init__), against the model's reload ----- *)
+ObsSet(f) == {x.r : x \in obs[f]}
+(* the rebuilt tree / credentials / attestations are exactly the ones the model's reload yields *)
+ObsRebuiltMatches == obs.seen => /\ ObsSet("tree") = rebuilt.tree /\ ObsSet("creds") = rebuilt.creds
+                                 /\ ObsSet("atts") = rebuilt.atts
+(* every rebuilt object is an inserted record of the right kind with the inserted bytes, present once;      *)
+(* every token of the rebuilt tree passed the real TokenTree.verify (signatures, chain back to the genesis) *)
+ObsRebuiltWhole   == obs.seen =>
+                       /\ \A x \in obs.tree  : /\ x.r \in Recs /\ recs[x.r].kind = "token"
+                                                /\ x.dig \in Range(Tr.recs[x.r].digs) /\ x.ok
+                       /\ \A x \in obs.creds : /\ x.r \in Recs /\ recs[x.r].kind = "metadata"
+                                                /\ x.dig \in Range(Tr.recs[x.r].digs) /\ x.ok
+                       /\ \A x \in obs.atts  : /\ x.r \in Recs /\ recs[x.r].kind = "attestation"
+                                                /\ x.dig \in Range(Tr.recs[x.r].digs) /\ x.ok
+                       /\ obs.ntree = Cardinality(ObsSet("tree")) /\ obs.ncreds = Cardinality(ObsSet("creds"))
+                       /\ obs.natts = Cardinality(ObsSet("atts"))
 =============================================================================
